@@ -254,6 +254,36 @@ v("break-c01-nil-before-ok", "break", "C01", "NIL-ASSERT", [
     (P, "func (p *parser) shift() (tok lex.Token) {", "func (p *parser) scopeSingle(lit *expr.Expression) *expr.Expression {\n\tif p.defaultField != \"\" && lit.Op == expr.Literal {\n\t\treturn lit\n\t}\n\treturn lit\n}\n\nfunc (p *parser) shift() (tok lex.Token) {"),
 ], "a helper dereferences the asserted pointer before ok is tested")
 
+# ---------------------------------------------------------------- round 8 / mutation-study rules
+v("break-c09-token-adjacency", "break", "C09", "TOK-LAYOUT", [
+    (L, "// String is a string representation of a lex item", "// Follows reports whether the token starts where prev ends.\nfunc (i Token) Follows(prev Token) bool {\n\treturn prev.pos+len(prev.Val) == i.pos\n}\n\n// String is a string representation of a lex item"),
+], "a token position read to test adjacency")
+v("break-c11-classify-raw-field", "break", "C11", "CTOR-COLUMN", [
+    (E, "\tif isStringlike(left) && operatesOnColumn(op) {\n\t\tleft = wrapInColumn(left)\n\t}\n\n\tif isLiteral(left) && op != Literal && op != Wild && op != Regexp {\n\t\tleft = literalToExpr(left)\n\t}\n",
+        "\tif isLiteral(left) && op != Literal && op != Wild && op != Regexp {\n\t\tleft = literalToExpr(left)\n\t}\n\n\tif isStringlike(left) && operatesOnColumn(op) {\n\t\tleft = wrapInColumn(left)\n\t}\n"),
+    (E, "\te, isExpr := in.(*Expression)\n\tif isExpr {\n\t\ts, isStr = e.Left.(string)", "\te, isExpr := in.(*Expression)\n\tif isExpr && e.Op == Literal {\n\t\ts, isStr = e.Left.(string)"),
+], "the raw field string is classified by content before it is made a column")
+v("break-c05-boost-threshold", "break", "C05", "ATTR-DOMAIN", [
+    (R, "\tif err == nil && pf > 0 && !math.IsInf(pf, 1) {", "\tif err == nil && pf > 1 && !math.IsInf(pf, 1) {"),
+], "powers between 0 and 1 no longer parse")
+v("break-c12-bound-via-float", "break", "C12", "JSON-NUM-EXACT", [
+    (E, "\t\tif i, ierr := strconv.Atoi(string(raw.Min)); ierr == nil {\n\t\t\tboundary.Min = i\n\t\t}\n", ""),
+], "the reverse of the exact-integer-bound repair (lower bound)")
+v("break-c10-float-not-a-literal", "break", "C10", "VAL-KINDS", [
+    (V_, "\treturn isInt(in) || isFloat(in)", "\treturn isInt(in) || isInt(in)"),
+], "float payloads are no longer literals for the validators")
+v("break-c08-bounds-unquoted", "break", "C08", "BOUND-UNIT", [
+    (RF, "\trawMin := strings.Trim(rangeSlice[0], \" \")\n\trawMax := strings.Trim(rangeSlice[1], \" \")\n\n\tiMin, iMax, err := toInts(rawMin, rawMax)\n\tif err == nil {\n\t\tif rawMin == \"'*'\" {\n\t\t\tif inclusive {\n\t\t\t\treturn fmt.Sprintf(\"%s <= %d\", left, iMax), nil",
+         "\trawMin := strings.Trim(rangeSlice[0], \" \")\n\trawMax := strings.Trim(rangeSlice[1], \" \")\n\n\tiMin, iMax, err := toInts(strings.Trim(rawMin, \"'\"), strings.Trim(rawMax, \"'\"))\n\tif err == nil {\n\t\tif rawMin == \"'*'\" {\n\t\t\tif inclusive {\n\t\t\t\treturn fmt.Sprintf(\"%s <= %d\", left, iMax), nil"),
+], "quotes trimmed before the integer reading: a quoted 007 becomes a number")
+v("break-c14-shared-start-stack", "break", "C14", "PUR-ARG", [
+    (P, "func Parse(input string, opts ...opt) (e *expr.Expression, err error) {", "var startTokens = append(make([]lex.Token, 0, 8), lex.Token{Typ: lex.TStart})\n\nfunc Parse(input string, opts ...opt) (e *expr.Expression, err error) {"),
+    (P, "nonTerminals: []lex.Token{{Typ: lex.TStart}},", "nonTerminals: startTokens,"),
+], "the per-call operator stack starts as a package-level slice with spare capacity")
+v("break-c15-list-trim-cutset", "break", "C15", "FOLD", [
+    (B, "\t\treturn strings.Join(strs, \", \"), nil\n", "\t\treturn strings.TrimRight(strings.Join(strs, \", \")+\", \", \", \"), nil\n"),
+], "the joined list text trimmed with a cutset")
+
 def main():
     os.makedirs(OUT, exist_ok=True)
     for f in os.listdir(OUT):
